@@ -371,6 +371,24 @@ def stepExec (s : State) (t : Peer × ReqId) : State × List Ev × Res :=
             (f.1, evs ++ [Ev.tx e.k o.peer o.id (.fin StatusCodes.RequestCompletedFull)] ++ f.2, .finished)
           else (s2, evs, .atGate)
 
+/-- `start`: startTask, then the executor runs until its first store read; a traversal that had
+    already delivered its last block before a pause completes at once (FinishRequest + FinishTask) -/
+def startExec (s : State) (t : Peer × ReqId) : State × List Ev × Res :=
+  let r := startTask s t
+  if r.2.2 ≠ .running then r
+  else
+    match findExec r.1.execs t with
+    | none => r
+    | some e =>
+      match r.1.obj e.k with
+      | none => r
+      | some o =>
+        if o.sent ≥ o.total then
+          let s3 := r.1.setObj e.k { o with finCode := some StatusCodes.RequestCompletedFull }
+          let f := finishTask s3 t none false
+          (f.1, r.2.1 ++ [Ev.tx e.k o.peer o.id (.fin StatusCodes.RequestCompletedFull)] ++ f.2, .finished)
+        else r
+
 /-! ### local API and message-sent notifications -/
 
 def pauseResp (s : State) (id : ReqId) : State × List Ev × Res :=
@@ -426,7 +444,7 @@ def notifyAt (s : State) (p : Peer) (j : Nat) (isErr : Bool) : State × List Ev 
 
 def stepD (d : List DispatchCase) (s : State) : Op → State × List Ev × Res
   | .msg q reqs => let r := processRequests d q s reqs; (r.1, r.2, .ok)
-  | .start p id => startTask s (p, id)
+  | .start p id => startExec s (p, id)
   | .step p id => stepExec s (p, id)
   | .pauseResp id => pauseResp s id
   | .unpauseResp id => unpauseRequest s id
